@@ -37,8 +37,16 @@ def rule_r1(ctx):
     p = ctx.p
     lk = get_locks(p)
     n = 0
+    cg = get_callgraph(p)
+    targets = {t[1].qual for (_, t) in cg.thread_targets if t[0] in ("bound", "func")}
+    unused = []
     for f in _methods(ctx):
         if f.name == "__init__":
+            continue
+        if not cg.callers.get(f.qual) and f.qual not in targets:
+            # nothing in the package calls (or reads, for a property) this member: it is not part of the server's
+            # behaviour - e.g. an informational accessor for embedding code.  Listed in the evidence, not judged.
+            unused.append(f.qual)
             continue
         idx = lk._stmt_index(f)
         # aliases: local = self.<field>
@@ -71,6 +79,7 @@ def rule_r1(ctx):
                 ctx.r.ok(rid, "%s captures the reference self.%s (no element access)" % (f.name, fld), f.loc(node))
             else:
                 ctx.r.violation(rid, key_of(f, st, "unlocked::" + fld), "%s touches %s outside the dispatcher lock: %s" % (f.qual, fld, norm(st).split("\n")[0][:70]), f.loc(node))
+    ctx.r.note("dispatcher_members_without_caller_in_package", unused)
     ctx.r.floor(rid, n, 20, "accesses to the pool bookkeeping")
 
 
